@@ -182,6 +182,13 @@ partial def parseAut (full : List (List (Nat × Nat))) (s : String) : Option Any
   else if s.startsWith "str:" then some ⟨Option Nat, autStr (keyOf (s.drop 4).toString), showON⟩
   else if s.startsWith "subseq:" then some ⟨Nat, autSubseq (keyOf (s.drop 7).toString), toString⟩
   else if s.startsWith "dfa:" then mkDfa ((s.drop 4).toString.splitOn ":")
+  else if s.startsWith "dfd:" then
+    -- the same table as a user automaton that relies on the trait's DEFAULT hint methods:
+    -- `can_match` = true and `will_always_match` = false in every state
+    match (s.drop 4).toString.splitOn ":" with
+    | [n, start, cls, delta, m, _, _] =>
+      mkDfa [n, start, cls, delta, m, String.ofList (List.replicate n.toNat! '1'), String.ofList (List.replicate n.toNat! '0')]
+    | _ => none
   else if s.startsWith "lev:" then
     match (s.drop 4).toString.splitOn ":" with
     | [q, d] =>
